@@ -254,6 +254,8 @@ class BuildIndex(object):
                 yield {'c1': block['c'], 'c2': j, 'o': o}
             # the index of the destination is a symbolic link to a file kept elsewhere (a shared index)
             yield {'c1': block['c'], 'c2': j, 'o': 0, 'linked': 1}
+            # the SAME module indexed again in a grown edition: what it defined before plus the OIDs of the second content
+            yield {'c1': block['c'], 'c2': j, 'o': 0, 'grown': 1}
 
     def run_case(self, case):
         from pysmi.compiler import MibCompiler
@@ -267,7 +269,11 @@ class BuildIndex(object):
             comp = MibCompiler(env.shared_parser('smiV2'), env.JsonCodeGen(), FileWriter(d).setOptions(suffix='.json'))
             vs = []
             facts = set()
-            for name, c in (('M1', cs[case['c1']]), ('M2', cs[case['c2']])):
+            steps = [('M1', cs[case['c1']]), ('M2', cs[case['c2']])]
+            if case.get('grown'):
+                steps[1] = ('M1', list(cs[case['c1']]) + [o for o in cs[case['c2']] if o not in cs[case['c1']]])
+                tag = 'C18|buildIndex|grown-edition'
+            for name, c in steps:
                 if name == 'M2' and case.get('linked'):
                     os.mkdir(os.path.join(d, 'shared'))
                     os.rename(os.path.join(d, 'index.json'), os.path.join(d, 'shared', 'the-index.json'))
